@@ -25,7 +25,7 @@ RULE = ("G1 (Hypothesis grammar): abstract trees (depth <= 3, fan-out <= 3; know
         "typed values of the abstract tree. Non-trivial: accepted input with a property whose value or parameter contains a "
         "character outside [A-Za-z0-9 -] or whose kind is not text; distinct by hash of the input.")
 ASSUMPTIONS = ["generated TEXT contains no raw CR (C05/C07 cover it)", "RESOURCES is a single TEXT in this library",
-               "VTIMEZONE components of generated trees carry no TZID (well-formed definitions are C12's domain)"]
+               "random VTIMEZONE components of generated trees carry no TZID; complete definitions of own zones are attached as they are (what they mean is C12's domain, here only that every property of them is kept)"]
 REQUIRED_CLASSES = ["history:zone-ids-looked-up-before", "gen:tree", "gen:fixture", "accepted", "has-backslash", "multiple", "lf-only", "extra-folds", "unknown-component", "non-text-kind"]
 
 _FIX = None
@@ -452,6 +452,20 @@ def tree_cases(draw):
             periods = draw(st.lists(T.s_value("period"), min_size=2, max_size=3))
             fb = {"c": "VFREEBUSY", "p": [["FREEBUSY", {"k": "periods", "v": periods}, {"FBTYPE": draw(st.sampled_from(["BUSY", "FREE"])), "X-P": "q"}]], "s": []}
             t["s"] = t["s"] + [fb]
+        if t["c"].upper() == "VCALENDAR" and draw(st.integers(0, 2)) == 0:
+            # a well-formed definition of a zone of its own, with extension properties on both levels (producers write X-LIC-LOCATION,
+            # X-TZINFO, X-MICROSOFT-...): they are part of what the text denotes like any other property
+            import copy
+            from checks.c09_parse_invariance import VTZ
+            z = copy.deepcopy(VTZ[draw(st.sampled_from(sorted(VTZ)))])
+            zid = z["p"][0][1]["v"] + "-" + str(draw(st.integers(0, 9)))
+            z["p"][0][1]["v"] = zid
+            if draw(st.booleans()):
+                z["p"].append(["X-LIC-LOCATION", {"k": "text", "v": zid}])
+            for ob in z["s"]:
+                if draw(st.booleans()):
+                    ob["p"].append([draw(st.sampled_from(["X-ORIGIN", "X-TZINFO", "COMMENT"])), {"k": "text", "v": draw(_mild).replace("\r", "")}])
+            t["s"] = ([z] + t["s"]) if draw(st.booleans()) else (t["s"] + [z])
         trees.append(t)
     return {"gen": "tree", "provider": draw(st.sampled_from(["zoneinfo", "pytz"])), "trees": trees, "multiple": n > 1 or draw(st.booleans()),
             "folds": draw(st.one_of(st.none(), st.lists(st.integers(0, 40), min_size=1, max_size=5))),
